@@ -102,13 +102,19 @@ func c20KindNames(m map[string]*c20Kind) []string {
 // ---------------------------------------------------------------- programs
 
 type c20Op struct {
-	Op  string `json:"op"` // bo bom bof fork clone merge reset resetmax cancel kill unkill
+	Op  string `json:"op"` // bo bom bof fork clone merge reset resetmax setctx cancel kill unkill
 	H   int    `json:"h"`
 	K   string `json:"k,omitempty"`
 	PCM int    `json:"pcm,omitempty"` // per-call maximum (bom, bof)
 	N   int    `json:"n,omitempty"`   // repeat count of a back-off op (0 = 1)
 	A   int    `json:"a,omitempty"`   // merge: ancestor handle
 	M   int    `json:"m,omitempty"`   // resetmax: new budget
+	// setctx: SetCtx(a new context derived from the handle's current one) — how that context will end:
+	// cancel | cause (WithCancelCause) | deadline (Err()==DeadlineExceeded, ended by the driver) |
+	// expired (real WithDeadline in the past: ended before the next call)
+	Mode string `json:"mode,omitempty"`
+	// cancel: end the context Up levels above the handle's own one (0 = its own)
+	Up int `json:"up,omitempty"`
 }
 
 func (o c20Op) String() string {
@@ -121,6 +127,10 @@ func (o c20Op) String() string {
 		return fmt.Sprintf("merge(h%d<-h%d)", o.A, o.H)
 	case "resetmax":
 		return fmt.Sprintf("resetmax(h%d,%d)", o.H, o.M)
+	case "setctx":
+		return fmt.Sprintf("setctx(h%d,%s)", o.H, o.Mode)
+	case "cancel":
+		return fmt.Sprintf("endctx(h%d,up%d)", o.H, o.Up)
 	}
 	return fmt.Sprintf("%s(h%d)", o.Op, o.H)
 }
@@ -133,7 +143,8 @@ func c20Rep(o c20Op) int {
 }
 
 type c20Prog struct {
-	Ctor      string  `json:"ctor"` // vars | nilvars | plain
+	Ctor      string  `json:"ctor"`     // vars | nilvars | plain
+	RootCtx   string  `json:"root_ctx"` // how the root's context ends (see c20Op.Mode)
 	Budget    int     `json:"budget"`
 	Weight    int     `json:"weight"`
 	LockFast  int     `json:"lock_fast"`
@@ -144,7 +155,7 @@ type c20Prog struct {
 
 func (p *c20Prog) shapeString() string {
 	var sb strings.Builder
-	fmt.Fprintf(&sb, "%s/b%d/w%d/l%d/x%d:", p.Ctor, p.Budget, p.Weight, p.LockFast, p.ExclLimit)
+	fmt.Fprintf(&sb, "%s/b%d/w%d/l%d/x%d/ctx-%s:", p.Ctor, p.Budget, p.Weight, p.LockFast, p.ExclLimit, p.RootCtx)
 	for _, o := range p.Ops {
 		sb.WriteString(o.String())
 		sb.WriteByte(' ')
@@ -172,15 +183,45 @@ type c20Node struct {
 type c20Shape struct {
 	nodes        []c20Node
 	ctxParent    []int
-	ctxCancelled []bool
+	ctxCancelled []bool // ended, by the driver's own bookkeeping
+	ctxMode      []string
 }
 
-func c20NewShape() *c20Shape {
-	return &c20Shape{nodes: []c20Node{{parent: -1, role: "root"}}, ctxParent: []int{-1}, ctxCancelled: []bool{false}}
+func c20NewShape(rootMode string) *c20Shape {
+	if rootMode == "" {
+		rootMode = "cancel"
+	}
+	return &c20Shape{nodes: []c20Node{{parent: -1, role: "root"}}, ctxParent: []int{-1}, ctxCancelled: []bool{rootMode == "expired"}, ctxMode: []string{rootMode}}
 }
 
 func (s *c20Shape) copy() *c20Shape {
-	return &c20Shape{nodes: append([]c20Node(nil), s.nodes...), ctxParent: append([]int(nil), s.ctxParent...), ctxCancelled: append([]bool(nil), s.ctxCancelled...)}
+	return &c20Shape{nodes: append([]c20Node(nil), s.nodes...), ctxParent: append([]int(nil), s.ctxParent...), ctxCancelled: append([]bool(nil), s.ctxCancelled...), ctxMode: append([]string(nil), s.ctxMode...)}
+}
+
+// endedBy: how the context of handle h ended ("" = alive): mode of the nearest
+// ended context on its chain and whether that is the handle's own context.
+func (s *c20Shape) endedBy(h int) (mode string, own bool) {
+	for c := s.nodes[h].ctx; c >= 0; c = s.ctxParent[c] {
+		if s.ctxCancelled[c] {
+			return s.ctxMode[c], c == s.nodes[h].ctx
+		}
+	}
+	return "", false
+}
+
+func (s *c20Shape) ctxUp(h, up int) int {
+	c := s.nodes[h].ctx
+	for ; up > 0 && s.ctxParent[c] >= 0; up-- {
+		c = s.ctxParent[c]
+	}
+	return c
+}
+
+func (s *c20Shape) newCtx(parent int, mode string) int {
+	s.ctxParent = append(s.ctxParent, parent)
+	s.ctxCancelled = append(s.ctxCancelled, mode == "expired")
+	s.ctxMode = append(s.ctxMode, mode)
+	return len(s.ctxParent) - 1
 }
 
 func (s *c20Shape) live(h int) bool { return h >= 0 && h < len(s.nodes) && !s.nodes[h].dead }
@@ -234,9 +275,7 @@ func (s *c20Shape) apply(o c20Op) int {
 		s.nodes[o.H].everReset = true
 	case "fork":
 		p := s.nodes[o.H]
-		s.ctxParent = append(s.ctxParent, p.ctx)
-		s.ctxCancelled = append(s.ctxCancelled, false)
-		s.nodes = append(s.nodes, c20Node{parent: o.H, parentVer: p.ver, ctx: len(s.ctxParent) - 1, role: "fork", merged: p.merged})
+		s.nodes = append(s.nodes, c20Node{parent: o.H, parentVer: p.ver, ctx: s.newCtx(p.ctx, "cancel"), role: "fork", merged: p.merged})
 		return len(s.nodes) - 1
 	case "clone":
 		p := s.nodes[o.H]
@@ -246,8 +285,10 @@ func (s *c20Shape) apply(o c20Op) int {
 		s.nodes[o.A].ver++
 		s.nodes[o.A].merged = true
 		s.nodes[o.H].dead = true
+	case "setctx":
+		s.nodes[o.H].ctx = s.newCtx(s.nodes[o.H].ctx, o.Mode)
 	case "cancel":
-		s.ctxCancelled[s.nodes[o.H].ctx] = true
+		s.ctxCancelled[s.ctxUp(o.H, o.Up)] = true
 	}
 	return -1
 }
